@@ -165,6 +165,10 @@ func progShape(nodes []progNode) string {
 			sec++
 		}
 	}
+	if len(nodes) >= 8 && (roots == len(nodes) || roots == 1) {
+		// scale family: one class per size bucket
+		return fmt.Sprintf("burst n<=%d roots=%v sec=%v same=%v", (len(nodes)+99)/100*100, roots > 1, sec > 0, same > 0)
+	}
 	return fmt.Sprintf("n%d r%d s%d z%d", len(nodes), roots, sec, same)
 }
 
@@ -417,6 +421,44 @@ func enumWide(minR, maxR int, yield func([]progNode) bool) {
 	}
 }
 
+// enumBursts yields the scale family: for every size n in 1..maxN one program
+// per shape (sizes below 8 are covered by the other families), so that every
+// queue length up to maxN occurs while filling and
+// while draining (implementation thresholds on the number of pending events
+// are crossed in both directions).
+func enumBursts(maxN int, yield func([]progNode) bool) {
+	for n := 8; n <= maxN; n++ {
+		shapes := [][]progNode{}
+		var same, sameSec, asc, desc, zig []progNode
+		for i := 0; i < n; i++ {
+			same = append(same, progNode{Parent: -1, Dt: 0})
+			sameSec = append(sameSec, progNode{Parent: -1, Sec: true, Dt: 0})
+			asc = append(asc, progNode{Parent: -1, Sec: i%3 == 1, Dt: i})
+			desc = append(desc, progNode{Parent: -1, Sec: i%3 == 2, Dt: n - 1 - i})
+			t := i
+			if i%2 == 1 {
+				t = n - i
+			}
+			zig = append(zig, progNode{Parent: -1, Sec: i%4 >= 2, Dt: t / 2})
+		}
+		shapes = append(shapes, same, sameSec, asc, desc, zig)
+		if n >= 2 {
+			fan := []progNode{{Parent: -1, Dt: 0}}
+			fanSame := []progNode{{Parent: -1, Sec: true, Dt: 1}}
+			for i := 1; i < n; i++ {
+				fan = append(fan, progNode{Parent: 0, Dt: n - i})
+				fanSame = append(fanSame, progNode{Parent: 0, Sec: i%2 == 0, Dt: 0})
+			}
+			shapes = append(shapes, fan, fanSame)
+		}
+		for _, sh := range shapes {
+			if !yield(sh) {
+				return
+			}
+		}
+	}
+}
+
 func maxTime(nodes []progNode) int {
 	kids := kidsOf(nodes)
 	m := 0
@@ -432,7 +474,7 @@ func init() {
 	lib.Register(&lib.Check{
 		ID:    "C01",
 		Level: "exploration",
-		Rule: "every event program = ordered forest of <= N events (quick N=5, thorough N=6) with labels (primary|secondary, delay 0..2; roots at absolute 0..2), handlers schedule their children in order; " +
+		Rule: "every event program = ordered forest of <= N events (quick N=5, thorough N=6) with labels (primary|secondary, delay 0..2; roots at absolute 0..2), handlers schedule their children in order; plus a scale family: for every size n = 8..600 (thorough 1200) seven shapes (n same-instant primaries; n same-instant secondaries; ascending, descending and zig-zag times with mixed classes; one root fanning out n-1 children at distinct times; one root fanning out n-1 same-instant children of alternating class), so that every pending-queue length up to that size occurs while filling and draining; " +
 			"plus the wide family (4..7 roots at times {0,1}, every class/time pattern x {no, primary, secondary, both} same-instant children); each program is run on the real SerialEngine with and without an engine hook " +
 			"and the complete handled sequence is compared with a reference scheduler (time, primary-first, schedule order). Each (program, hook) pair is a distinct case.",
 		Sharded:     true,
@@ -448,7 +490,14 @@ func init() {
 					return
 				}
 				enumWide(4, lib.Pick(c, 6, 7), func(n []progNode) bool {
-					return yield(engCase{Nodes: n}) && yield(engCase{Nodes: n, Hook: true})
+					cont = yield(engCase{Nodes: n}) && yield(engCase{Nodes: n, Hook: true})
+					return cont
+				})
+				if !cont {
+					return
+				}
+				enumBursts(lib.Pick(c, 600, 1200), func(n []progNode) bool {
+					return yield(engCase{Nodes: n, Hook: len(n)%2 == 0})
 				})
 			}, runEngCase)
 		},
